@@ -1,17 +1,20 @@
 import PhreeqcVerif.Model.Util
 import PhreeqcVerif.Model.Settings
-/-! `pmodel api`: create/destroy/set/get sequences through the registry + settings model. -/
+import PhreeqcVerif.Model.Api
+/-! `pmodel api`: call sequences through the registry + settings model. Every op names the C function it goes through
+(`g1 … g6`, see harness/ph_api.cpp); functions outside the settings store are answered with the documented invalid-instance
+result (table `Api.docSpec`) when the id is not live and with `N` (not modelled) when it is. -/
 namespace Driver.Api
 open PhreeqcVerif PhreeqcVerif.Util PhreeqcVerif.Registry PhreeqcVerif.Settings
 
-def parseSw : String → Option Sw
-  | "outfile" => some .outFile | "outstr" => some .outStr | "errfile" => some .errFile
-  | "errstr" => some .errStr | "erron" => some .errOn | "logfile" => some .logFile
-  | "logstr" => some .logStr | "dumpfile" => some .dumpFile | "dumpstr" => some .dumpStr
+def swOf : String → Option Sw
+  | "OutputFile" => some .outFile | "OutputString" => some .outStr | "ErrorFile" => some .errFile
+  | "ErrorString" => some .errStr | "Error" => some .errOn | "LogFile" => some .logFile
+  | "LogString" => some .logStr | "DumpFile" => some .dumpFile | "DumpString" => some .dumpStr
   | _ => none
 
-def parseNm : String → Option Nm
-  | "out" => some .out | "err" => some .err | "log" => some .log | "dump" => some .dump
+def nmOf : String → Option Nm
+  | "Output" => some .out | "Error" => some .err | "Log" => some .log | "Dump" => some .dump
   | _ => none
 
 def parseOptStr (s : String) : Option (Option String) :=
@@ -21,55 +24,135 @@ def showRes : Res → String
   | .int v => s!"I {v}"
   | .str s => s!"S {hexStr s}"
 
+/-- documented result of C function `name` for an id that is not live -/
+def badLine (name : String) : String :=
+  match PhreeqcVerif.Api.specOf name with
+  | some .silentZero => "I 0"
+  | some .silentEmpty => "S -"
+  | some .silentMsg => "S " ++ hexStr (PhreeqcVerif.Api.invalidMsg name)
+  | some .silentVoid => "O " ++ hexStr (PhreeqcVerif.Api.invalidMsg name ++ "\n")
+  | some .noId => "N"
+  | some _ => "I -6"
+  | none => "bad-op"
+
+def stripPre (pre s : String) : Option String :=
+  if s.startsWith pre then some (s.drop pre.length).toString else none
+def stripSuf (suf s : String) : Option String :=
+  if s.endsWith suf then some (s.dropEnd suf.length).toString else none
+
+/-- the settings-store call behind `Get<X>On` / `Get<X>FileName` / `Set…`, if the function belongs to the store -/
+def getterCall (name : String) : Option Call :=
+  if name == "GetCurrentSelectedOutputUserNumber" then some .getCur
+  else if name == "GetSelectedOutputFileOn" then some .getSelFileOn
+  else if name == "GetSelectedOutputStringOn" then some .getSelStrOn
+  else if name == "GetSelectedOutputFileName" then some .getSelName
+  else match stripPre "Get" name with
+    | none => none
+    | some r => match stripSuf "On" r with
+      | some k => (swOf k).map .getSw
+      | none => match stripSuf "FileName" r with
+        | some k => (nmOf k).map .getName
+        | none => none
+
+def intSetterCall (name : String) (v : Int) : Option Call :=
+  if name == "SetCurrentSelectedOutputUserNumber" then some (.setCur v)
+  else if name == "SetSelectedOutputFileOn" then some (.setSelFileOn (v != 0))
+  else if name == "SetSelectedOutputStringOn" then some (.setSelStrOn (v != 0))
+  else match stripPre "Set" name with
+    | none => none
+    | some r => match stripSuf "On" r with
+      | some k => (swOf k).map (fun s => .setSw s (v != 0))
+      | none => none
+
+def strSetterCall (name : String) (v : Option String) : Option Call :=
+  if name == "SetSelectedOutputFileName" then some (.setSelName v)
+  else match stripPre "Set" name with
+    | none => none
+    | some r => match stripSuf "FileName" r with
+      | some k => (nmOf k).map (fun n => .setName n v)
+      | none => none
+
 def step (r : Reg Inst) (line : String) : Reg Inst × Option String :=
+  let live (id : Int) : Bool := (r.lookup id).isSome
   let call (id : String) (c : Call) : Reg Inst × Option String :=
     match id.toInt? with
     | some id => let (r', res) := capi r id c; (r', some (showRes res))
     | none => (r, some "bad-op")
+  -- a function outside the store: documented result when the id is dead, `N` when live; `eff` = its effect on the store
+  let other (name id : String) (eff : Option Call) : Reg Inst × Option String :=
+    match id.toInt? with
+    | some id =>
+      if live id then
+        match eff with
+        | some c => ((capi r id c).1, some "N")
+        | none => (r, some "N")
+      else (r, some (badLine name))
+    | none => (r, some "bad-op")
   match words line with
-  | ["create"] => let (r', id) := r.create fresh; (r', some s!"I {id}")
-  | ["createcpp"] => let (r', id) := r.create fresh; (r', some s!"I {id}")
-  | ["createf"] => let (r', id) := r.create fresh; (r', some s!"I {id}")
-  | ["destroycpp", id] =>
+  | ["create"] | ["createcpp"] | ["createf"] => let (r', id) := r.create fresh; (r', some s!"I {id}")
+  | ["destroy", id] | ["destroycpp", id] | ["destroyf", id] =>
     match id.toInt? with
     | some id => let (r', res) := r.destroy id; (r', some s!"I {res}")
     | none => (r, some "bad-op")
-  | ["destroy", id] =>
-    match id.toInt? with
-    | some id => let (r', res) := r.destroy id; (r', some s!"I {res}")
+  | ["g1", name, id] =>
+    match getterCall name with
+    | some c => call id c
+    | none => other name id (if name == "RunAccumulated" then some .rerun else none)
+  | ["g2", name, id, _] =>
+    match getterCall name with
+    | some c => call id c
+    | none => other name id none
+  | ["g3", name, id, _, _] => other name id none
+  | ["nth", id, _] => other "GetNthSelectedOutputUserNumber" id none
+  | ["g4", _, name, id, v] =>
+    match v.toInt? with
     | none => (r, some "bad-op")
-  | ["setsw", w, id, v] =>
-    match w with
-    | "selfile" => call id (.setSelFileOn (v != "0"))
-    | "selstr" => call id (.setSelStrOn (v != "0"))
-    | _ => match parseSw w with
-      | some s => call id (.setSw s (v != "0"))
-      | none => (r, some "bad-op")
-  | ["getsw", w, id] =>
-    match w with
-    | "selfile" => call id .getSelFileOn
-    | "selstr" => call id .getSelStrOn
-    | _ => match parseSw w with
-      | some s => call id (.getSw s)
-      | none => (r, some "bad-op")
-  | ["setname", w, id, v] =>
+    | some v => match intSetterCall name v with
+      | some c => call id c
+      | none => other name id none
+  | ["g5", _, name, id, v] =>
     match parseOptStr v with
     | none => (r, some "bad-op")
-    | some ov =>
-      if w == "sel" then call id (.setSelName ov)
-      else match parseNm w with
-        | some n => call id (.setName n ov)
-        | none => (r, some "bad-op")
-  | ["getname", w, id] =>
-    if w == "sel" then call id .getSelName
-    else match parseNm w with
-      | some n => call id (.getName n)
-      | none => (r, some "bad-op")
-  | ["setcur", id, n] =>
-    match n.toInt? with
-    | some n => call id (.setCur n)
+    | some ov => match strSetterCall name ov with
+      | some c => call id c
+      | none =>
+        -- the generator passes only failing arguments to LoadDatabase*, inputs that define nothing to RunString and
+        -- files that do not exist to RunFile (which then ends before anything is read or re-opened)
+        other name id (if name == "LoadDatabase" || name == "LoadDatabaseString" then some (.unload false)
+                       else if name == "RunString" then some .rerun else none)
+  | ["g6", _, name, id] => other name id none
+  | ["cell", id, _, _] => other "GetSelectedOutputValue" id none
+  | ["setcb", via, id] =>
+    match id.toInt? with
+    | some id => (r, some (if live id then "I 0" else badLine (if via == "c" || via == "p" then "SetBasicCallback" else "SetBasicFortranCallback")))
     | none => (r, some "bad-op")
-  | ["getcur", id] => call id .getCur
+  | ["version"] => (r, some "N")
+  | ["loaddb", _, id] => call id (.unload true)
+  | ["loadbad", _, id] => call id (.unload false)
+  | ["defsel", _, id, n, f] =>
+    match n.toInt?, (if f == "-" then some none else (unhexStr f).map some) with
+    | some n, some f => call id (.defSel n f)
+    | _, _ => (r, some "bad-op")
+  | "runsel" :: _ :: id :: _ :: ns =>
+    match id.toInt? with
+    | some id =>
+      let calls := ns.filterMap (fun n => n.toInt?.map (fun k => Call.defSel k none))
+      let (r', res) := calls.foldl (fun (acc : Reg Inst × Res) c => capi acc.1 id c) (r, if live id then .int 0 else .int (-6))
+      (r', some (if live id && calls.isEmpty then "N" else showRes res))
+    | none => (r, some "bad-op")
+  | ["pad", src, len] =>
+    match unhexStr src, len.toNat? with
+    | some s, some n =>
+      let (buf, l) := PhreeqcVerif.Api.padfstring s.toList n
+      (r, some s!"P {hexStr (String.ofList buf)}:{l}")
+    | _, _ => (r, some "bad-op")
+  | "defaultnames" :: id :: ns =>
+    match id.toNat? with
+    | some id =>
+      let i := fresh id
+      let sels := ns.filterMap (fun n => n.toInt?.map (fun k => selName k id))
+      (r, some (String.intercalate " " ([i.getName .out, i.getName .err, i.getName .log, i.getName .dump] ++ sels)))
+    | none => (r, some "bad-op")
   | [] => (r, none)
   | _ => (r, some "bad-op")
 
